@@ -7,8 +7,6 @@ ddm_vs_dD     ddm_get_derivative_dynmat_at_q (IR, through the real glue and Deri
               in the cos/sin atoms (each an independent variable in [-1,1]).
 c_vs_py       _run_c == _run_py at concrete q for all force constants (LRA).
 wang_c_vs_py  Wang NAC: _run_c == _run_py at concrete q for all Born tensors (not assumed symmetric) - polynomial identity.
-wang_ddm      Wang NAC with concrete (non-symmetric) Born charges and symbolic q: kernel derivative == tree derivative of
-              the Wang dynamical-matrix kernel (thorough tier; NRA, may be inconclusive).
 gv            GroupVelocity.run/_calculate_group_velocity_at_q/_get_dD_analytical/_perturb_D/_symmetrize_group_velocity executed in
               E2 with the derivative matrices dD/dq_a *symbolic Hermitian matrices* (injected in place of the ddm object; that
               they are the true derivative is ddm_vs_dD's job), D(q) and its LAPACK eigenvectors concrete at a q without
@@ -40,7 +38,7 @@ def units(tier):
          ("gv", "tric2", "211", False), ("gv", "tric2", "211", True), ("gv", "hex2", "211", True), ("gv", "mono2", "211", True), ("gv", "tet2", "211", True),
          ("gruneisen", "tric2", "211", "general"), ("gruneisen", "tric2", "211", "scaling"), ("gruneisen", "hex2", "211", "general"), ("gruneisen", "tric2", "211", "band")]
     if tier == "thorough":
-        u += [("ddm_vs_dD", "hex2", "211"), ("ddm_vs_dD", "tric2", "nd4"), ("c_vs_py", "mono2", "nd1"), ("wang_c_vs_py", "hex2", "211"), ("wang_ddm", "tric2", "211"),
+        u += [("ddm_vs_dD", "hex2", "211"), ("ddm_vs_dD", "tric2", "nd4"), ("c_vs_py", "mono2", "nd1"), ("wang_c_vs_py", "hex2", "211"),
               ("gv", "ortho2x", "211", True), ("gv", "hex2", "211", False), ("gruneisen", "mono2", "211", "general"), ("gruneisen", "hex2", "211", "scaling"), ("gruneisen", "hex2", "211", "band")]
     return u
 
@@ -432,7 +430,7 @@ def run_unit(u):
         Z0 = np.array([np.eye(3) * (1.3 if k % 2 == 0 else -1.3) + 0.3 * rng.uniform(-1, 1, (3, 3)) for k in range(tmp.n_p)])
         nac = {"born": Z0, "dielectric": np.array([[2.6, 0.15, 0.05], [0.15, 2.9, -0.1], [0.05, -0.1, 3.3]]), "factor": 14.4, "method": "wang"}
     case = DMCase(gid, sid, nac=nac)
-    br = bridge.Bridge(ctx.shim, ctx.ir)
+    br = bridge.Bridge(ctx.shim, ctx.ir, mode="merge") if kind == "wang_ddm" else bridge.Bridge(ctx.shim, ctx.ir)
     br.install()
     try:
         fc_conc = rng.uniform(-1, 1, (case.n_s, case.n_s, 3, 3))
@@ -572,7 +570,7 @@ def main(tier, seed):
     chk.bounds = ["q symbolic in [-1,1]^3 with concrete force constants (ddm_vs_dD); force constants symbolic in [-1,1] at two concrete q (c_vs_py); Born entries in [-2,2] at one concrete q (Wang)",
                   "gv: dD/dq entries in [-1,1] (3 Hermitian 6x6 matrices), one non-degenerate q per crystal %s, spring-model force constants; gruneisen: D+, D- entries in [-1,1] at q-lists %s, volumes V0 (1.02, 0.985), s+- in [1/2, 2]" % (GV_Q, GRU_QS)]
     chk.outside = ["degenerate bands (eigh of a symbolic block larger than 1x1) and the finite-difference (q_length) variant of dD", "Hellmann-Feynman itself (that <e|dD|e>/2w is the gradient of the frequency is perturbation theory, taken as the definition)",
-                   "Grueneisen mesh/band front ends and mesh-symmetry agreement", "Gonze-Lee NAC (no analytic derivative in phonopy)"]
+                   "Grueneisen mesh/band front ends and mesh-symmetry agreement", "Gonze-Lee NAC (no analytic derivative in phonopy)", "Wang-NAC derivative against the tree derivative of the Wang dynamical matrix for symbolic q (both layers branch on |q|; only C == Python is decided for Wang)"]
     chk.assumptions = ["cos/sin uninterpreted with the derivative rules d cos = -sin du, d sin = cos du applied by the harness's tree differentiator and the parity instances cos(-u)=cos(u), sin(-u)=-sin(u); each remaining cos/sin application is an independent variable in [-1,1]", "doubles as exact reals"]
     chk.run_units(run_unit, us)
     return chk.finish()
